@@ -25,7 +25,7 @@ import (
 func TestLeafEditsAfterObservation(t *testing.T) {
 	const test = "LeafEditsAfterObservation"
 	hx.Rule(test, "generated modules x 1..3 text mutations (h/mut) such that the library's parser accepts both texts; the first is parsed and observed (String(), every function's LLString(), Operands/Type/Ident of every instruction), the second is parsed and printed (so that lazily assigned IDs and type caches exist on both sides); walk.Transplant assigns every differing scalar of the first module from the second through the exported fields; String() of the first module must then equal String() of the second, twice; pairs whose object graphs differ in shape, inside a type object, or in a scalar held inside an interface are discarded and counted; non-trivial = at least one scalar was assigned")
-	hx.Check(t, test, hx.N(400, 40000), func(rt *rapid.T) {
+	hx.Check(t, test, hx.N(400, 12000), func(rt *rapid.T) {
 		cfg := gen.DefaultCfg()
 		cfg.MaxFuncs = 3
 		cfg.Off = map[string]bool{"retattr-align": true, "freeze-metadata": true}
